@@ -490,11 +490,14 @@ func (s *Writer) loadSnapshot(epoch uint64) (*Snapshot, error) {
 			return nil, fmt.Errorf("error reading snapshot CRC: %w", err)
 		}
 		if !bytes.Equal(computedCRCBytes, fileCRCBytes) {
+			// build the error first, fileCRCBytes may point into the mapped
+			// file, which is unmapped by closing
+			err = fmt.Errorf("CRC mismatch loading snapshot %d: computed: %x file: %x",
+				epoch, computedCRCBytes, fileCRCBytes)
 			if closer != nil {
 				_ = closer.Close()
 			}
-			return nil, fmt.Errorf("CRC mismatch loading snapshot %d: computed: %x file: %x",
-				epoch, computedCRCBytes, fileCRCBytes)
+			return nil, err
 		}
 	}
 	if closer != nil {
